@@ -11,7 +11,7 @@ from ..model import ClassRef
 
 LEVEL = 'other'
 EXPLANATION = (
-    'Static analysis (inductive step by folding definitions over mock children). For each of the four sentence classes, substitute() and each derived attribute (constants, variables, predicates, atomics, operators, quantifiers) is folded from source over mock children carrying arbitrary attribute values and compared with the structural specification for one level of the tree: substitution rebuilds with the same head and replaces exactly the old parameter in every child, in order; unquantify(c) = body.substitute(Constant(c), variable); c >> Q = Q.unquantify(c); negative() of a negation is its operand; every aggregate reads the same-named attribute of every child, sequences keep prefix order with the own operator/quantifier first. By induction on the sentence tree this gives exactness for all sentences; the induction itself (and caching by lazy.prop) is the assumption, not enumerated. Parameter mocks compare by value and the old parameter is also given as an equal item that is another object.')
+    'Static analysis (inductive step by folding definitions over mock children). For each of the four sentence classes, substitute() and each derived attribute (constants, variables, predicates, atomics, operators, quantifiers) is folded from source over mock children carrying arbitrary attribute values and compared with the structural specification for one level of the tree: substitution rebuilds with the same head and replaces exactly the old parameter in every child, in order; unquantify(c) = body.substitute(Constant(c), variable); c >> Q = Q.unquantify(c); negative() of a negation is its operand; every aggregate reads the same-named attribute of every child, sequences keep prefix order with the own operator/quantifier first. By induction on the sentence tree this gives exactness for all sentences; the induction itself (and caching by lazy.prop) is the assumption, not enumerated. Parameter mocks compare by value and the old parameter is also given as an equal item that is another object. (R3) the equality rebuilt sentences are cached and compared by is structural: the constructor fold of C14.R1 imported (distinct specs, bound variable included, get distinct keys).')
 TRUSTED = ['CPython ast', 'sa.minieval']
 ASSUMPTIONS = ['lazy.prop caches the first computed value (tools/lazy.py not analysed)', 'sentences are immutable after construction (C14.R3)']
 
